@@ -301,10 +301,15 @@ func c06length(a *algo, stratum int, j int64, r *rand.Rand) (l uint64, unknown b
 func TestC06(t *testing.T) {
 	m := mon.New(t, "C06")
 	defer m.Done()
-	m.Rule("history = NewXOF(L or OutputLengthUnknown, key) ; Write* (message 0..300 bytes in 1..3 chunks) ; then Reads on up to 3 readers (original + Clones taken in write mode or at arbitrary read positions, each driven with its own chunk sizes 0..200, {Out-1,Out,Out+1,2Out±1,4Out±1} and, for long outputs, 1000..8000) until every reader has delivered L bytes and then reported io.EOF twice (unknown length: until a target beyond 2^16 bytes for BLAKE2s / 70000 resp. 300 KiB for BLAKE2b); Write-after-Read probed for the documented panic; Reset then a second message. L by stratum: unknown short / unknown long / boundary list {1,31..33,63..65,127..129,255,256,65534, b2b: 65535,65536,70000} / <=300 / <=5000 / large / partial last node / clone+reset focus. Caller memory: all Writes go through one reused buffer scribbled (0xA5) after each call, the key slice is scribbled after NewXOF and after Reset, the last 8 filled Read buffers are re-verified after every later Read. Oracle = position model (L, pos) over the BLAKE2X executable spec (h/ref/blake2: root hash with XOF length, node i with node offset i and digest length min(Out, L-i*Out)). One evaluation = one history; distinct = (alg, length class, keyed, #readers, reset).")
+	m.Rule("history = NewXOF(L or OutputLengthUnknown, key) ; Write* (message 0..300 bytes in 1..3 chunks) ; then Reads on up to 3 readers (original + Clones taken in write mode or at arbitrary read positions, each driven with its own chunk sizes 0..200, {Out-1,Out,Out+1,2Out±1,4Out±1} and, for long outputs, 1000..8000) until every reader has delivered L bytes and then reported io.EOF twice (unknown length: until a target beyond 2^16 bytes for BLAKE2s / 70000 resp. 300 KiB for BLAKE2b); Write-after-Read probed for the documented panic; Reset then a second message. L by stratum: unknown short / unknown long / boundary list {1,31..33,63..65,127..129,255,256,65534, b2b: 65535,65536,70000} / <=300 / <=5000 / large / partial last node / clone+reset focus. Caller memory: all Writes go through one reused buffer scribbled (0xA5) after each call, the key slice is scribbled after NewXOF and after Reset, the last 8 filled Read buffers are re-verified after every later Read. Oracle = position model (L, pos) over the BLAKE2X executable spec (h/ref/blake2: root hash with XOF length, node i with node offset i and digest length min(Out, L-i*Out)). Concurrency stream (the only stream in the -race build): rounds of 4..8 barrier-started goroutines, each with its OWN XOF (keyed/unkeyed, known/unknown length, a Clone made and read inside the goroutine), expected output precomputed single-threaded from the reference, judged after join; every fourth round under GOMAXPROCS(1); interleavings are scheduler-chosen. One evaluation = one history or one goroutine job; distinct = (alg, length class, keyed, #readers, reset).")
 	m.Assume("h/ref/blake2's BLAKE2X layer is validated on the 512 official BLAKE2Xb/BLAKE2Xs known-answer vectors (lengths 1..256, keyed) and the two unknown-length vectors; its compression function is cross-checked against python hashlib in the unit test and in C05. No independent BLAKE2X implementation exists in the image (hashlib rejects fanout=0/depth=0), so node offsets > 3 and L > 256 rest on the spec text alone.")
 	if err := refb2.SelfTest(); err != nil {
 		m.Inconclusive("reference self-test failed: " + err.Error())
+		return
+	}
+	if mon.RaceBuild {
+		// -race variant: only the shared-value concurrency stream
+		c06concurrent(m)
 		return
 	}
 	total := m.N(6000, 120000)
@@ -458,6 +463,7 @@ func TestC06(t *testing.T) {
 			m.Sample(map[string]any{"alg": a.name, "class": cls, "L": h.l, "unknown": h.unknown, "keylen": len(h.key), "msglen": len(msg), "readers": len(readers), "first_steps": tr})
 		}
 	})
+	c06concurrent(m)
 	q := func(a, b int) int { return m.N(a, b) }
 	m.Gate("reads_straddling_node_boundary", q(12000, 240000), "reads whose bytes come from more than one BLAKE2X node")
 	m.Gate("reads_starting_mid_node", q(12000, 240000), "reads starting inside a partially consumed node")
